@@ -78,8 +78,9 @@ def check(state, ev, ctx, obs):
         return st == IDLE and wr in notes and close >= 1 and conn == 0
 
     if ev == 'hdr':
-        # header error: Message Header Error with the subcode; nothing is reported to the application
-        return closes_with([[N(1, ctx['sub'])]]) and _no_reports(cbs)
+        # header error: Message Header Error with the subcode; nothing is reported to the application (a KEEPALIVE that
+        # carries a body is a received KEEPALIVE - C18 counts it - and may be reported as one before it is rejected)
+        return closes_with([[N(1, ctx['sub'])]]) and _no_reports(cbs, ctx.get('reports_ok', ()))
     if ev == 'holdt':
         if state in (OPENCONFIRM, ESTABLISHED) and ctx.get('hold') == 0:
             # with a negotiated hold time of zero the hold timer is not running: it cannot expire
